@@ -1,4 +1,8 @@
-"""C08 - delete and flush remove exactly what they should."""
+"""C08 - delete and flush remove exactly what they should.
+
+(1) one-step refinement of delete / flush / set at store level (both store variants), (2) TTL/flush history BMC, (3) wire round
+trip of the delete and flush opcodes, (4) "no effect if the CAS does not match" also under concurrency: all schedules of a
+CAS-carrying delete racing a store / another delete on the same key (the check and the removal must be one atomic step)."""
 from .common import *
 from .store_checks import run_store_checks
 
@@ -11,6 +15,14 @@ def run(tier, seed, replay_path=None):
     from . import ttl_bmc
     run_store_checks(ck, ['delete', 'flush', 'set'], {'kind', 'vis', 'deadline', 'frame', 'value'}, K=2, tier=tier)
     ttl_bmc.run(ck, tier, {'flush'})
+    from .wire_rt import wire_roundtrip
+    wire_roundtrip(ck, tier, ('delete', 'flush'))
+    from .conc_checks import explore_program
+
+    def set_cas0(progs, st):
+        return [inp.cas == 0 for p in progs for c, inp in p if c == 'set']
+    progs = [[['delete'], ['set']], [['delete'], ['delete']]] + ([] if tier == 'quick' else [[['delete'], ['set'], ['get']], [['delete', 'get'], ['set']]])
+    ck.fork_map(progs, lambda c, names: explore_program(c, names, constraints=set_cas0))
     return ck.finish()
 
 
